@@ -148,6 +148,9 @@ def main():
     explore.WANT[0] = None if args.all_labels else {prop, "contract"}
     if prop == "C16":
         os.environ["SYMX_DECIDE_HAZARDS"] = "1"      # C16: every arithmetic hazard with a witness is replayed on the real code (inherited by the workers)
+    # second solver: every k-th obligation z3 answers 'unsat' is exported as SMT-LIB2 and decided again by cvc5 (inherited by the workers)
+    os.environ.setdefault("SYMX_XCHECK", "40" if tier == "quick" else "15")
+    explore.XCHECK_EVERY = int(os.environ["SYMX_XCHECK"] or 0)
     aggs = explore.explore_many(jobs, nproc=args.nproc, deadline=deadline)
 
     known = load_known()
@@ -157,6 +160,7 @@ def main():
     n_obl = n_dis = 0
     paths = decisions = validated = nq = unknown = 0
     tsolve = 0.0
+    xc = {"n": 0, "agree": 0, "unknown": 0, "disagree": 0, "t": 0.0, "disagreements": []}
     samples = []
     hazards_all = {}
     reached = {}
@@ -169,6 +173,11 @@ def main():
                 print("     mismatch:", kind, str(det)[:600])
         paths += a.paths; decisions += a.decisions; nq += a.nq; unknown += a.unknown; tsolve += a.tsolve
         validated += a.validated.get("ok", 0)
+        for k in ("n", "agree", "unknown", "disagree", "t"):
+            xc[k] += a.xc[k]
+        for l in a.xc["disagreements"]:
+            xc["disagreements"].append(f"{hn}[{ck}]: {l}")
+            inconclusive.append(f"{hn}[{ck}]: '{l}': z3 says unsat, cvc5 says sat on the same SMT-LIB2 text (solver disagreement, neither believed)")
         samples += a.samples[:1] if len(samples) < 12 else []
         reached.setdefault(hn, set()).update(a.reached)
         if a.errors:
@@ -279,6 +288,9 @@ def main():
                 "samples": samples or [{"note": "no completed path"}],
                 "obligations": n_obl, "discharged": n_dis, "queries": nq, "solver_unknown": unknown,
                 "solver_time_s": round(tsolve, 2),
+                "second_solver": {"solver": "cvc5 (python wheel)", "sampling": f"every {explore.XCHECK_EVERY}-th obligation answered unsat by z3, per worker" if explore.XCHECK_EVERY else "off",
+                                  "requeried": xc["n"], "agree_unsat": xc["agree"], "cvc5_unknown_or_timeout": xc["unknown"], "disagree": xc["disagree"],
+                                  "time_s": round(xc["t"], 2), "time_limit_ms": explore.XCHECK_TLIMIT_MS},
                 "harnesses": sorted({h.name for h in hs}),
                 "configurations": len(jobs),
                 "functions_encoded": sorted({f"{m}:{src_hash(m)}" for h in hs for m in h.modules}),
@@ -300,7 +312,7 @@ def main():
         os.makedirs(os.path.join(HERE, "evidence"), exist_ok=True)
         json.dump(ev, open(os.path.join(HERE, "evidence", f"{prop}.json"), "w"), indent=1, default=str)
     print(f"[{prop} {tier}] harnesses={len(hs)} configs={len(jobs)} paths={paths} obligations={n_obl} discharged={n_dis} queries={nq} "
-          f"solver_s={tsolve:.1f} validated={validated} wall={wall:.1f}s status={status}")
+          f"solver_s={tsolve:.1f} cvc5_requeried={xc['n']}/agree={xc['agree']}/unknown={xc['unknown']}/disagree={xc['disagree']} validated={validated} wall={wall:.1f}s status={status}")
     for hk, v in sorted(hazards_all.items()):
         print(f"  hazard {hk}: {v['n']} path(s), confirmed {v['confirmed']}: {(v['sample'] or {}).get('detail')}")
     for (hn, ck, label, path) in out_viol:
